@@ -305,8 +305,11 @@ class Check:
         print('real code:', json.dumps(r)[:3000])
         if self.driver and ok:
             m = self.model_outcome(case, Driver(self.driver).ask(self.model_requests(case)))
-            print('model    :', json.dumps(m)[:3000])
-            print('agree    :', self.equal(r, m))
+            if m is SKIP_MODEL:
+                print('model    : (case judged by the direct oracle only)')
+            else:
+                print('model    :', json.dumps(m, default=str)[:3000])
+                print('agree    :', self.equal(r, m))
         v = self.oracle(case, r)
         print('oracle   :', 'ok' if v is None else f'VIOLATED: {v.what}')
         return 1 if v is not None else 0
